@@ -165,6 +165,7 @@ def generate(seed, tier="quick"):
             used = list(dict.fromkeys(k for k, _ in PACKAGE.findall(request["op"]["expr"])))
             request["missing"] = next((k for k in used if k not in request["cer"]["packages"]), None)
         world["dict_cer"] = clone(requests[0]["cer"])
+        world["json_files"] = rnd.random() < 0.5  # JsonFilePackageResolver instead of DictBasedPackageResolver
     profile = rnd.choice([p for p in PROFILES if p != "zero"] * 3 + ["zero"])
     return {"property": PROP_ID, "seed": seed, "profile": profile, "world": world, "requests": requests}
 
